@@ -28,7 +28,8 @@ PRECOND_CALL = re.compile(
     r"|^std::vec::Vec::<T, A>::(insert|remove|swap_remove|drain|split_off)$|^std::vec::Vec::<T>::with_capacity$|^std::vec::from_elem$"
     r"|^f64::clamp$|^f32::clamp$|^std::cmp::Ord::clamp$|ops::(Rem|Div)<.*>>::(rem|div)$|^std::iter::Iterator::step_by$|^std::time::Duration::from_secs_f\d+$"
     r"|^std::string::String::(insert|insert_str|remove|drain|split_off|truncate)$|^std::str::<impl str>::split_at$|RefCell<T>::(borrow|borrow_mut)$"
-    r"|^serde_json::map::Map::<std::string::String, serde_json::value::Value>::with_capacity$|^std::collections::\w+::<.*>::with_capacity$)"
+    r"|^serde_json::map::Map::<std::string::String, serde_json::value::Value>::with_capacity$|^std::collections::\w+::<.*>::with_capacity$"
+    r"|^std::num::<impl \w+>::(div_ceil|div_floor|div_euclid|rem_euclid|next_multiple_of|ilog|ilog2|ilog10|isqrt)$)"
 )
 IGNORED_ASSERTS = ("Misaligned", "NullDeref", "NullPointerDereference", "InvalidEnumConstruction")
 
